@@ -50,13 +50,14 @@ def run(P, C, tier):
         for bi in cn.live_blocks():
             for si, st in enumerate(cn.blocks[bi]["s"]):
                 if st["lhs"][-1:] == [".enable_full_text"]:
-                    if field_path(cn.def_term(bi, si, st["rv"], 0)).endswith("entity.enable_full_text"):
+                    dt = cn.def_term(bi, si, st["rv"], 0)
+                    if field_path(dt).endswith(".enable_full_text") and "EntityMutation" in cn.root_type(mir.strip(dt)):
                         sets += 1
                 rv = st["rv"]
                 if rv["r"] == "aggr" and rv.get("adt", "").endswith("NodeToMutate") and "enable_full_text" in rv["fields"]:
                     t = cn.def_term(bi, si, rv, 0)
                     v = t[4][t[5].index("enable_full_text")]
-                    if field_path(v).endswith("entity.enable_full_text"):
+                    if field_path(v).endswith(".enable_full_text") and "EntityMutation" in cn.root_type(mir.strip(v)):
                         sets += 1
         C.ob("R2", "flag-from-entity", sets >= 2, cn.loc(), "enable_full_text of the row to mutate is the entity's flag on both the update and the create path (%d sites)" % sets)
     except mir.MissingAnchor as e:
@@ -101,11 +102,12 @@ def run(P, C, tier):
             ok = bool(ins_upd) and all(d not in nw.reach_after(x) for x in ins_upd) and u in nw.reach_after(d) and all(u not in nw.reach_after(u2) for u2 in [u])
             C.ob("R3", "update-order", ok, nw.loc(d), "'delete' of the previous text is never executed after the insert of the current text, and the row UPDATE comes after both")
             C.ob("R3", "insert-branch-indexes", bool(ins_new), nw.loc(ex["insert"][0]), "a new row is indexed after its INSERT (with the new rowid)")
-            # both index statements are guarded by `index`
+            # both index statements are guarded by `index` (the only bool parameter of Node::write)
+            flag = nw.the_local("the index flag of Node::write", ty=r"^bool$", param=True)
             for k, blocks in (("fts-delete", [d]), ("fts-insert", ex["fts-insert"])):
                 for bi in blocks:
                     g = nw.guards(bi)
-                    ok = any(mir.cond_atoms(term, vals)[0][:2] == ("param", "index") and mir.cond_atoms(term, vals)[1] is True for s, vals, term in g)
+                    ok = any(mir.cond_atoms(term, vals)[0][:2] == ("param", flag) and mir.cond_atoms(term, vals)[1] is True for s, vals, term in g)
                     C.ob("R3", "%s-under-index-flag#%d" % (k, blocks.index(bi)), ok, nw.loc(bi), "index statement executed only when `index` is set")
     except mir.MissingAnchor as e:
         C.anchor_missing("R3", "Node::write", e)
